@@ -547,6 +547,8 @@ def run(rep, tier):
         # on-demand / lazy keys are decoded only when the skipper reports an escape (shared with C10)
         from . import c10
         c10.clause_escape_flag(facts, rep, nss)
+        from . import c15
+        c15.clause_h(facts, rep)      # `v <= 0x1f` of the control-byte screening is an unsigned lane compare
     rep.trust('clang 14 front end and constant evaluator', 'Python str.encode("utf-8") as the RFC 3629 oracle', 'path enumeration is exhaustive for the loop-free handle_unicode_codepoint')
     rep.assumptions += [
         'decides the escape/hex tables, that no path of handle_unicode_codepoint encodes a surrogate or turns a pair into a BMP code point, UTF-8 encoding on boundary and sampled code points, the error classes, that bytes are consumed only behind a control-byte screening of the block they belong to, and the meaning of the StringBlock predicates and masks',
